@@ -108,3 +108,116 @@ def sem_fields(m: Model, kind: str) -> list[str]:
             continue
         out.append(n)
     return out
+
+
+# ---------------------------------------------------------------------------
+# state that outlives a call: mutable default arguments, mutated class attributes
+
+_MUT_CTORS = ("set", "dict", "list", "defaultdict", "OrderedSet", "Counter", "deque",
+              "OrderedDict")
+_MUTATORS = ("add", "append", "update", "setdefault", "pop", "clear", "extend", "insert",
+             "remove", "discard", "popitem", "__setitem__")
+
+
+def _is_mutable_display(n):
+    import ast
+    if isinstance(n, (ast.Dict, ast.List, ast.Set, ast.DictComp, ast.ListComp, ast.SetComp)):
+        return True
+    return isinstance(n, ast.Call) and isinstance(n.func, ast.Name) and n.func.id in _MUT_CTORS
+
+
+def shared_mutable_state(m, modules):
+    """(kind, module, node, description) for
+    * mutable default argument values, and
+    * class-level attributes initialised to a mutable container that some method
+      of the class (or a subclass) mutates through self/cls
+    in ``modules``.  Both make a result depend on what was computed earlier in
+    the process (histories), which no single call reveals."""
+    import ast
+    out = []
+    for mi, fd in m.all_functions(modules=modules):
+        args = fd.args
+        pos = args.posonlyargs + args.args
+        for a, d in list(zip(pos[len(pos) - len(args.defaults):], args.defaults)) \
+                + [(a, d) for a, d in zip(args.kwonlyargs, args.kw_defaults) if d is not None]:
+            if _is_mutable_display(d):
+                out.append(("default", mi, fd,
+                            f"parameter `{a.arg}={ast.unparse(d)}` of "
+                            f"{m.qualname(fd).replace('pytato.', '', 1)}"))
+    for qn, ci in m.classes.items():
+        if ci.module.name not in modules:
+            continue
+        for st in ci.node.body:
+            tgt, val = None, None
+            if isinstance(st, ast.Assign) and len(st.targets) == 1 \
+                    and isinstance(st.targets[0], ast.Name):
+                tgt, val = st.targets[0].id, st.value
+            elif isinstance(st, ast.AnnAssign) and isinstance(st.target, ast.Name) \
+                    and st.value is not None:
+                tgt, val = st.target.id, st.value
+            if tgt is None or not _is_mutable_display(val):
+                continue
+            # mutated through self / cls / the class name in this class or a subclass?
+            for k in [qn] + list(m.subclasses(qn, strict=True)):
+                for mn, fd in m.classes[k].methods.items():
+                    for x in ast.walk(fd):
+                        base = None
+                        if isinstance(x, ast.Call) and isinstance(x.func, ast.Attribute) \
+                                and x.func.attr in _MUTATORS:
+                            base = x.func.value
+                        elif isinstance(x, ast.Subscript) and isinstance(x.ctx, (ast.Store, ast.Del)):
+                            base = x.value
+                        if isinstance(base, ast.Attribute) and base.attr == tgt \
+                                and ast.unparse(base.value) in ("self", "cls", ci.name, "type(self)"):
+                            # unless the instance re-binds the attribute in __init__
+                            init = m.classes[k].methods.get("__init__")
+                            rebinds = init is not None and any(
+                                isinstance(y, ast.Attribute) and isinstance(y.ctx, ast.Store)
+                                and y.attr == tgt and ast.unparse(y.value) == "self"
+                                for y in ast.walk(init))
+                            if not rebinds:
+                                out.append(("classattr", ci.module, st,
+                                            f"class attribute `{ci.name}.{tgt} = "
+                                            f"{ast.unparse(val)[:30]}` mutated in "
+                                            f"{m.classes[k].name}.{mn}"))
+                                break
+                    else:
+                        continue
+                    break
+                else:
+                    continue
+                break
+    return out
+
+
+def check_no_shared_state(c, rule, modules, why, floor_funcs=10):
+    """one obligation per module: no state of the two kinds above"""
+    m = c.model
+    # canary: the fixture must be flagged (exactly its two bad constructs)
+    from pathlib import Path
+    from pta.model import AnalysisError, Model
+    fm = Model(Path(__file__).resolve().parent.parent / "fixtures" / "state", package="fixpkg")
+    got = sorted(k for k, _mi, _n, _d in shared_mutable_state(fm, list(fm.modules)))
+    if got != ["classattr", "default"]:
+        raise AnalysisError(f"shared-mutable-state canary: expected one default and one "
+                            f"class attribute, flagged {got}")
+    mods = [x for x in modules if x in m.modules]
+    found = shared_mutable_state(m, mods)
+    by_mod = {}
+    for kind, mi, node, desc in found:
+        by_mod.setdefault(mi.name, []).append((kind, mi, node, desc))
+    n_funcs = sum(1 for _ in m.all_functions(modules=mods))
+    if n_funcs < floor_funcs:
+        from pta.model import AnalysisError
+        raise AnalysisError(f"only {n_funcs} functions scanned for shared mutable state")
+    for mod in mods:
+        mi = m.modules[mod]
+        hits = by_mod.get(mod, [])
+        if not hits:
+            c.ok(rule, mod.replace("pytato.", "", 1), "no-state-outliving-a-call",
+                 mi.relpath(m.repo) + ":1", nontrivial=False)
+        for kind, mi_, node, desc in hits:
+            c.violation(rule, mod.replace("pytato.", "", 1),
+                        f"no-state-outliving-a-call:{desc[:70]}", m.loc(mi_, node),
+                        f"{desc}: the container is created once and shared by every later "
+                        f"call / instance, so {why}")
